@@ -17,7 +17,10 @@ UNIT = {
   'XRefTable::get': {'kind': 'fn', 'file': X, 'container': r'^impl XRefTable$', 'name': 'get', 'props': ['C02', 'C18', 'C01'],
      'ensures': [('get_in_table', '(id as int) < self.entries@.len() ==> r == Ok::<XRef, PdfError>(self.entries@[id as int])'),
                  ('get_beyond_table', '(id as int) >= self.entries@.len() ==> r == Err::<XRef, PdfError>(PdfError::UnspecifiedXRefEntry { id })')],
-     'rewrites': [{'rule': 'R5', 'find': 'Some(&entry) => Ok(entry),', 'replace': 'Some(entry_) => { let entry = *entry_; Ok(entry) },'}]},
+     # R5 by shape (any binding name, block or expression arm); count '*': a body without such a pattern (explicit bounds
+     # test + indexing) is read verbatim
+     'rewrites': [{'rule': 'R5', 'regex': r'Some\(&(\w+)\)\s*=>\s*\{', 'replace': r'Some(\1_) => { let \1 = *\1_;', 'count': '*'},
+                  {'rule': 'R5', 'regex': r'Some\(&(\w+)\)\s*=>\s*([^,{}]*),', 'replace': r'Some(\1_) => { let \1 = *\1_; \2 },', 'count': '*'}]},
 
   # R2: all fields kept (the type parameters OC, SC, L stay abstract), widened to pub
   'struct Storage': {'kind': 'decl', 'file': FILE, 'header': r'^pub struct Storage<B, OC, SC, L>$',
